@@ -10,6 +10,9 @@ import (
 type Ctx struct {
 	decls    []string
 	declared map[string]bool
+	// scoped: facts that came from a witness assertion labelled <scope>w_<name>; they are handed only to obligations of
+	// clauses whose label starts with <scope> (dropping a hypothesis elsewhere is sound and keeps unrelated queries small)
+	scoped   map[string]string
 	facts    []string
 	nfresh   int
 	notes    []string // imprecision / unsupported notes
